@@ -36,7 +36,7 @@ CaseOK(e, s, x) ==
          ELSE IF x.res = "err" THEN e.res # "ok"
          ELSE TRUE
     [] PROP = "C15" -> e.res # "panic"
-    [] PROP = "C20" -> (x.res = "ok" /\ e.res = "ok" /\ x.cyc >= 0) => e.st = x.cyc
+    [] PROP = "C20" -> (x.res \in {"ok", "any"} /\ e.res = "ok" /\ x.cyc >= 0) => e.st = x.cyc   \* "any" with a charge: register overlap
     [] PROP = "ALL" ->
          IF x.pw \/ x.q = "odd" THEN e.res # "panic"
          ELSE IF x.res = "ok" THEN e.res = "ok" /\ PostOK(e, s, x) /\ ConOK(e, x) /\ (x.cyc >= 0 => e.st = x.cyc)
